@@ -8,6 +8,8 @@ corr:accumulator   the real ChildAccumulator / ChildFds::fill_buf (split and com
                    fed by the harness; the schedule select! happened to take (which reader, how many
                    bytes) is read off the implementation's trace and the model must reproduce every
                    intermediate length, done flag and the final bytes.
+corr:normalise     Model/CaptureNorm.v (what the stripping / XML crates do to ESC-free text) against the
+                   JUnit text and the uncoloured output of the end-to-end runs.
 e2e                scripted puppet tests write seeded streams; the event tap's length + xxh64 per
                    attempt and stream, the JUnit system-out/system-err and the output nextest prints
                    are compared with what the puppet wrote (after the documented normalisations,
@@ -23,7 +25,6 @@ import puppet  # noqa: E402  (prng_bytes / stream_bytes: the generator the test 
 
 PROP = "C16"
 IMPORTS = ["Base.Str", "Model.Capture"]
-NORM_TARGETS = ["Model/CaptureNorm.vo", "Proofs/CaptureNorm.vo"]
 PRELUDE = """
 Definition b2n (b : bool) : N := if b then 1 else 0.
 Definition dig (l : bytes) : list N := lenN l :: fst (wsum l) :: snd (wsum l) :: takeN 64 l.
@@ -82,10 +83,6 @@ def coq_bytes(it):
     if it[0] in ("c", "w"):
         return vlib.coq_list([str(x) for x in bytes.fromhex(it[-1])])
     return f"(prng_bytes {it[-2]} {it[-1]})"
-
-
-def dig_of(b):
-    return [len(b), py_xxh64(b)] + list(b[:64])
 
 
 def impl_dig(d):
